@@ -34,6 +34,7 @@ func c07(c *Ctx) {
 	sConfigClone(c, "R7/S-CFGCLONE")
 	sConfigCodec(c, "R8/S-CFGCODEC")
 	c07R9(c, "R9")
+	sCommitCoversConfig(c, "R10/S-COMMITCFG")
 	sState(c, "R7/S-STATE")
 }
 
@@ -358,6 +359,7 @@ func c07R5(c *Ctx, rule string) {
 		"(*Raft).processConfigurationLogEntry": "a newer configuration entry arrives: the previous latest is treated as committed",
 		"(*Raft).installSnapshot":              "snapshot's configuration",
 		"(*Raft).restoreSnapshot":              "start-up",
+		"NewRaft":                              "start-up: the restored commit index covers the latest configuration entry",
 	})
 	for _, s := range sites {
 		name := c.P.Name(s.Fn)
@@ -376,6 +378,10 @@ func c07R5(c *Ctx, rule string) {
 			idx := "min(p2.LeaderCommitIndex, recv.raftState.getLastIndex())"
 			r := c.Run(&engine.Automaton{Fn: s.Fn, Tracks: []engine.Track{engine.PredRel("covered", "recv.configurations.latestIndex", idx, engine.LT|engine.EQ)}})
 			c.RequireAt(r, rule, name+":commit-latest", s.Instr, "latestIndex <= the new commit index and the value is (latest, latestIndex)", func(v engine.View) bool { return latest && v.T("covered") })
+		case "NewRaft":
+			r := c.Run(&engine.Automaton{Fn: s.Fn, Tracks: []engine.Track{engine.PredRel("covered", "new(Raft).configurations.latestIndex", "new(Raft).raftState.getCommitIndex()", engine.LT|engine.EQ)}})
+			isLatest := a0 == "new(Raft).configurations.latest" && a1 == "new(Raft).configurations.latestIndex"
+			c.RequireAt(r, rule, name+":commit-latest", s.Instr, "latestIndex <= the (restored) commit index and the value is (latest, latestIndex)", func(v engine.View) bool { return isLatest && v.T("covered") })
 		case "(*Raft).processConfigurationLogEntry":
 			c.Check(rule, name+":commit-previous-latest", c.P.InstrPos(s.Instr), "value is (latest, latestIndex) – at most one uncommitted configuration is tracked", latest, "("+a0+", "+a1+")", 1)
 		}
